@@ -47,6 +47,9 @@ POSITIONS = ["root"] + A.WRAPPERS + ["additionalItems/single-items", "additional
              "anyOf/after-true", "anyOf/before-empty", "oneOf/next-to-false", "allOf/after-false", "properties/maxProperties-0", "items/maxItems-0+const", "not/not"]
 
 
+DIALECTS = ["http://json-schema.org/draft-06/schema#", "http://json-schema.org/draft-07/schema#", "http://json-schema.org/draft-04/schema#", "https://json-schema.org/draft/2019-09/schema", "http://json-schema.org/draft-03/schema#", "http://json-schema.org/schema#"]
+
+
 def place(position, s):
     s = copy.deepcopy(s)
     if position == "root":
@@ -122,6 +125,15 @@ def keyword_cases(st, lo, hi):
                 dirty_inner = {**copy.deepcopy(base), kw: copy.deepcopy(val)}
                 doc = place(position, dirty_inner)
                 entries = ["parse"] + (["parse_element"] if position != "definitions" else []) + (["main"] if (position in ("root", "definitions", "properties.a", "items") and isinstance(doc, dict)) else [])
+                if isinstance(doc, dict) and position in ("root", "properties.a", "definitions", "anyOf0", "items") and "$schema" not in doc:
+                    # the same document declaring its dialect: the keyword is unsupported whatever the document says it is
+                    dialect = DIALECTS[(len(kw) + len(position) + len(bname)) % len(DIALECTS)]
+                    for entry in ("parse", "main") if position != "anyOf0" else ("parse",):
+                        got2 = attempt(entry, {"$schema": dialect, **copy.deepcopy(doc)})
+                        st.add("evaluations")
+                        st.outcome("%s+$schema/%s" % (entry, got2))
+                        if got2 != "REFUSED":
+                            st.violation("unsupported-keyword-not-refused:%s:declared-dialect" % got2, "%s at %s in a document declaring $schema %s via %s: %s instead of the not-implemented error" % (json.dumps({kw: val}), position, dialect, entry, got2), {"base": base, "position": position, "keyword": kw, "value": val, "entry": entry, "dialect": dialect})
                 st.add("states")
                 st.add("transitions")
                 st.add("nontrivial")
@@ -260,6 +272,37 @@ def ring_cases(st):
         defs = {"d%d" % i: ref_node("properties", ["#/definitions/d%d" % (i + 1)] if i + 1 < length else [], "D%d" % i) for i in range(length)}
         doc = {**ref_node("properties", ["#/definitions/d0"], "Root"), "definitions": defs}
         judge_graph(st, "chain length %d kind properties" % length, doc, None, False, rank=length, budget=BUDGET * length)
+    # rings built by hand (already resolved: the objects refer to each other), handed to parse() and parse_element()
+    for length in (1, 2, 50, 300, 1000):
+        for kind in ("properties", "items", "anyOf", "additionalProperties"):
+            nodes = [{"type": "object", "title": "N%d" % i, "properties": {"own": {"type": "integer"}}} for i in range(length)]
+            for i, node in enumerate(nodes):
+                nxt = nodes[(i + 1) % length]
+                if kind == "properties":
+                    node["properties"]["next"] = nxt
+                elif kind == "items":
+                    node["properties"]["next"] = {"type": "array", "items": nxt}
+                elif kind == "anyOf":
+                    node["properties"]["next"] = {"anyOf": [nxt, {"type": "null"}]}
+                else:
+                    node["additionalProperties"] = nxt
+            for entry, fn in (("parse", parse), ("parse_element", parse_element)):
+                st.add("states")
+                st.add("transitions")
+                st.add("evaluations")
+                st.add("nontrivial")
+                try:
+                    impl.with_budget(lambda: fn(nodes[0]), BUDGET * 4)
+                    got = "RETURNED"
+                except impl.Budget:
+                    got = "TIMEOUT"
+                except RecursionError:
+                    got = "OTHER:RecursionError"
+                except Exception as exc:
+                    got = classify(exc)
+                st.outcome("hand-built-ring/%s" % got)
+                if got != "REFUSED":
+                    st.violation("recursive-references-not-refused:%s:hand-built" % got, "a ring of %d object schemas linked through %s, given to %s: %s" % (length, kind, entry, got), {"ring": length, "kind": kind, "entry": entry})
     # cycles that run through a literal keyword (json_ref_dict resolves $ref inside default / const / enum as well)
     judge_graph(st, "literal cycle: default -> root", {"type": "object", "title": "Root", "properties": {"p": {"type": "object", "title": "P", "default": {"$ref": "#"}}}}, None, True, 1)
     judge_graph(st, "literal cycle: const <-> enum between definitions", {"type": "object", "title": "Root", "properties": {"a": {"$ref": "#/definitions/a"}}, "definitions": {"a": {"const": {"x": {"$ref": "#/definitions/b"}}}, "b": {"enum": [{"$ref": "#/definitions/a"}, 1]}}}, None, True, 2)
